@@ -54,7 +54,7 @@ Repair(op, w, u) ==
     /\ kind = "real" /\ Len(stack) >= 1
     /\ Len(w) = Len(Top) /\ Len(u) = Len(Top)
     /\ \A i \in DOMAIN Top :
-          /\ w[i].ev = Top[i].ev
+          /\ w[i].ev = 0           \* the driver hands out &mut to every solution: all unevaluated afterwards
           /\ Len(w[i].x) = Len(Top[i].x) /\ Len(u[i]) = Len(Top[i].x)
           /\ \A j \in DOMAIN Top[i].x :
                 /\ RepairedOK(op, Top[i].x[j], w[i].x[j])
@@ -76,10 +76,10 @@ InitPop(op, n, w) ==
     /\ stack' = Append(stack, w)
     /\ res' = R("ok", <<>>)
 
-\* the harness installs a prepared population of unevaluated real-valued solutions
+\* the harness installs a prepared population of real-valued solutions, evaluated or not
 SetPop(p) ==
     /\ kind = "real"
-    /\ \A i \in DOMAIN p : p[i].ev = 0 /\ Len(p[i].x) = dim
+    /\ \A i \in DOMAIN p : p[i].ev \in {0, 1} /\ Len(p[i].x) = dim
                            /\ \A j \in DOMAIN p[i].x : WellFormed(p[i].x[j]) /\ p[i].x[j].c \in InsideC \cup OutsideC
     /\ stack' = Append(stack, p)
     /\ res' = R("ok", <<>>)
@@ -175,18 +175,20 @@ Inside ==
              \/ act'.op = "toroidal" /\ Top1[i].x[j].c \in RoundC ]_vars
 
 \* ... changes no coordinate that already was inside (bit-identical), keeps the shape of the
-\* population, the evaluation marks and the rest of the stack
+\* population and the rest of the stack (every repaired individual is unevaluated afterwards, whether
+\* or not it was evaluated before: the repair has had mutable access to its solution)
 InsideUntouched ==
     [][ IsRepair(act') =>
           /\ Len(stack') = Len(stack) /\ Len(Top1) = Len(Top)
           /\ \A s \in 1..(Len(stack) - 1) : stack'[s] = stack[s]
           /\ \A i \in DOMAIN Top :
-                /\ Top1[i].ev = Top[i].ev /\ Len(Top1[i].x) = Len(Top[i].x)
+                /\ Top1[i].ev = 0 /\ Len(Top1[i].x) = Len(Top[i].x)
                 /\ \A j \in DOMAIN Top[i].x :
                       IsInside(Top[i].x[j]) => (Top1[i].x[j] = Top[i].x[j] /\ res'.u[i][j] = 1) ]_vars
 
 \* ... and is therefore idempotent: repairing a repaired population changes nothing
-Idempotent == [][ (IsRepair(act') /\ AllInside(Top)) => Top1 = Top ]_vars
+Idempotent == [][ (IsRepair(act') /\ AllInside(Top)) =>
+                     /\ Len(Top1) = Len(Top) /\ \A i \in DOMAIN Top : Top1[i].x = Top[i].x ]_vars
 
 \* saturation and mirror are the functions their names say (lattice points)
 ExactOnLattice ==
